@@ -347,3 +347,87 @@ def run_initialize_emissions(n_sims, preseed, seeds, gen_dir, source_specs, rate
         fps.append(tuple((sid, tuple(((e._start_date - SIM_START).days, e._emissions_id, float(e._rate))
                                      for e in ems)) for sid, ems in sorted(scen.items())))
     return fps
+
+
+# ------------------------------------------------------------------------------------------------
+# multi-step histories on ONE generator folder (fresh run, extension, smaller run)
+# ------------------------------------------------------------------------------------------------
+class _RecordingInfrastructure(StubInfrastructure):
+    def __init__(self, sources, rate_sources, events):
+        super().__init__(sources, rate_sources)
+        self._events = events
+
+    def generate_emissions(self, sim_start_date, sim_end_date, sim_number, pre_simulation_emissions=True):
+        self._events.append(("gen", sim_number))
+        return super().generate_emissions(sim_start_date, sim_end_date, sim_number, pre_simulation_emissions)
+
+
+@contextlib.contextmanager
+def record_np_seed(events):
+    orig = np.random.seed
+
+    def rec(seed=None):
+        events.append(("seed", None if seed is None else int(seed)))
+        return orig(seed)
+
+    np.random.seed = rec
+    try:
+        yield
+    finally:
+        np.random.seed = orig
+
+
+def _read_pickle(path):
+    with open(path, "rb") as fh:
+        return pickle.load(fh)
+
+
+def folder_state(gen_dir):
+    """(n_sim_saved or 0, {sim number: scenario fingerprint} for every pickle present)"""
+    gen_dir = pathlib.Path(gen_dir)
+    nloc = gen_dir / Generator_Files.N_SIM_SAVE_FILE
+    n_saved = int(_read_pickle(nloc)) if nloc.exists() else 0
+    fps = {}
+    i = 0
+    while (gen_dir / Generator_Files.GEN_INFRA_EMISS.format(i=i)).exists():
+        d = _read_pickle(gen_dir / Generator_Files.GEN_INFRA_EMISS.format(i=i))
+        scen = d[i]
+        fps[i] = tuple((sid, tuple(((e._start_date - SIM_START).days, e._emissions_id, float(e._rate))
+                                   for e in ems)) for sid, ems in sorted(scen.items()))
+        i += 1
+    return n_saved, fps
+
+
+def run_history(steps, gen_dir, source_specs, rate_sources, n_days, pre_enabled, np_seed):
+    """steps: [(n_sims, hash_file_exist)].  Per step the REAL gen_seed_emis and the REAL
+    initialize_emissions run on the same generator folder, exactly as the simulation manager chains
+    them (force_remake of the first is handed to the second).  np.random.seed and the infrastructure
+    call are recorded (not altered).  Returns one dict per step."""
+    gen_dir = pathlib.Path(gen_dir)
+    np.random.seed(np_seed)
+    out = []
+    for (n, hash_exists) in steps:
+        before_saved, before_fps = folder_state(gen_dir) if gen_dir.exists() else (0, {})
+        with contextlib.redirect_stdout(io.StringIO()):
+            seeds, force = PRESEED.gen_seed_emis(n, gen_dir)
+        seeds = [int(v) for v in seeds]
+        events = []
+        srcs = [make_source(d, m, p, sid=f"S{k}") for k, (d, m, p) in enumerate(source_specs)]
+        infra = _RecordingInfrastructure(srcs, rate_sources, events)
+        with record_np_seed(events), contextlib.redirect_stdout(io.StringIO()):
+            INIT.initialize_emissions(n, True, seeds, hash_exists, infra, SIM_START,
+                                      SIM_START + timedelta(days=n_days - 1), gen_dir, pre_enabled,
+                                      force_remake=force)
+        trace, last = [], None
+        for kind, v in events:
+            if kind == "seed":
+                last = v
+            else:
+                trace.append((v, last))
+                last = None
+        after_saved, after_fps = folder_state(gen_dir)
+        seed_file = [int(v) for v in PRESEED.get_emis_seed(gen_dir)]
+        out.append({"n": n, "fresh": (not hash_exists) or bool(force), "seeds_passed": seeds,
+                    "seed_file": seed_file, "trace": trace, "saved_before": before_saved,
+                    "saved_after": after_saved, "fps_before": before_fps, "fps_after": after_fps})
+    return out
